@@ -203,6 +203,20 @@ def ite_value(c, a, b):
     raise Unsupported('ite over %r / %r' % (a, b))
 
 
+class NpScalar:
+    """A numpy scalar (np.float64 ...): behaves as its value in arithmetic, but its python type is observable
+    (repr() / '%r' print 'np.float64(...)', isinstance(x, float) holds, type(x) is not float)."""
+    def __init__(self, v):
+        self.v = v.v if isinstance(v, NpScalar) else v
+
+    def __repr__(self):
+        return 'NpScalar(%r)' % (self.v,)
+
+
+def unwrap(v):
+    return v.v if isinstance(v, NpScalar) else v
+
+
 class StarSeq:
     """*seq in a call where seq has symbolic length."""
     def __init__(self, seq):
@@ -224,6 +238,8 @@ def is_z3(v):
 
 def z3_of(v, like=None):
     """Lift a concrete python number/bool/str to z3."""
+    if type(v).__name__ == 'NpScalar':
+        v = v.v
     if is_z3(v):
         return v
     if isinstance(v, bool):
@@ -247,6 +263,11 @@ def _unsupported(msg):
 
 
 def num_pair(a, b):
+    # an integral python float next to an Int term keeps the Int sort (same mathematical value, cheaper queries)
+    if is_z3(a) and z3.is_int(a) and isinstance(b, float) and b == int(b):
+        b = int(b)
+    if is_z3(b) and z3.is_int(b) and isinstance(a, float) and a == int(a):
+        a = int(a)
     a = z3_of(a, b if is_z3(b) else None)
     b = z3_of(b, a)
     if z3.is_bool(a):
@@ -472,6 +493,7 @@ class Interp:
 
     # ---- truthiness -----------------------------------------------------------------------
     def truth(self, v):
+        v = unwrap(v)
         if isinstance(v, (bool, int, float, str, type(None), list, tuple, dict, Fraction)):
             return bool(v)
         if is_z3(v):
@@ -753,6 +775,8 @@ class Interp:
         raise Unsupported('unary op')
 
     def neg(self, v):
+        if isinstance(v, NpScalar):
+            return NpScalar(self.neg(v.v))
         if isinstance(v, Obj):
             m = self.world.find_method(v.cls, '__neg__')
             if m is None:
@@ -770,6 +794,13 @@ class Interp:
         return self.binop(type(node.op), a, b)
 
     def binop(self, op, a, b):
+        if isinstance(a, NpScalar) or isinstance(b, NpScalar):
+            if isinstance(a, (str, FmtStr)) and op is ast.Mod:
+                return self.str_binop(op, a, b)
+            if isinstance(a, Obj) or isinstance(b, Obj):
+                return self.binop(op, unwrap(a), unwrap(b))
+            r = self.binop(op, unwrap(a), unwrap(b))
+            return NpScalar(r) if (is_number(r) or is_z3(r)) else r
         # dunder dispatch for objects
         if isinstance(a, Obj) or isinstance(b, Obj):
             name = _DUNDER.get(op)
@@ -917,6 +948,8 @@ class Interp:
         return result
 
     def compare(self, op, a, b):
+        if op not in (ast.Is, ast.IsNot):
+            a, b = unwrap(a), unwrap(b)
         if op is ast.Is:
             return self.identical(a, b)
         if op is ast.IsNot:
@@ -1020,6 +1053,7 @@ class Interp:
 
     def equal(self, a, b):
         """Python == on non-object values; returns bool or z3 Bool."""
+        a, b = unwrap(a), unwrap(b)
         if isinstance(a, Obj) or isinstance(b, Obj):
             return self.obj_compare(ast.Eq, a, b)
         if a is None or b is None:
@@ -1104,6 +1138,7 @@ class Interp:
 
     # dict with possibly symbolic keys: python dict keyed by hashable(); symbolic keys kept as z3 terms
     def hashable(self, k):
+        k = unwrap(k)
         if isinstance(k, list):
             raise self.exc('TypeError', 'unhashable type: list')
         if isinstance(k, Obj):
